@@ -5,7 +5,7 @@ import numpy as np
 from vlib import caseio, gen, runner
 
 ID = "C08"
-COQ_TARGETS = ["C08_Extract.vo", "C08_Proofs.vo", "C08_Real.vo"]
+COQ_TARGETS = ["C08_Extract.vo", "C08_Proofs.vo", "C08_Real.vo", "C08_TV.vo"]
 COQ_PREFIXES = ["C08", "C01"]
 EXTRACTED = "C08_model"
 DRIVER = "drv_C08.ml"
@@ -16,7 +16,8 @@ MODEL_NEEDS_IMPL = True                  # the standard-normal draws logged by t
 TIMEOUT = 1500
 REQUIRED_THEOREMS = ["C08_predict_frame", "C08_predict_beliefs", "C08_correct_beliefs", "C08_correct_positions",
                      "C08_correct_likelihood_on_drawn", "C08_weight_formula", "C08_weight_product_form",
-                     "C08_invalid_restores", "C08_mahalanobis", "C08_multi_step", "C08_kf_conjugate_beliefs", "C08_kf_mahalanobis",
+                     "C08_invalid_restores", "C08_mahalanobis", "C08_multi_step", "C08_multi_step_time_varying", "C08_no_hidden_memory",
+                     "C08_stepwise_trace", "C08_executed_trace_time_varying", "C08_kf_conjugate_beliefs", "C08_kf_mahalanobis",
                      "C08_weights_telescope", "C08_unscented_steps_shape_ok", "C08_gauss_lik_length", "C08_pf_trace_noskip", "C08_pf_skip_correction",
                      "C08_draws_from_own_generator", "C08_draw_touches_own_generator_only",
                      "C08_move_assign_transfers_likelihood_model", "C08_fresh_reports_invalid",
@@ -27,8 +28,12 @@ LIFETIME_THEOREMS = ["C08_draws_from_own_generator", "C08_draw_touches_own_gener
                      "C08_move_assign_transfers_likelihood_model", "C08_fresh_reports_invalid", "C08_reported_validity_defined",
                      "C08_pre_fix_draws_from_own_generator_refuted", "C08_pre_fix_fresh_likelihood_invalid_refuted", "C08_pre_fix_move_assign_refuted"]
 RULE = ("cases from one seeded stream: n in 1..4 and 6 (2, 4, 6 with the library's WhiteNoiseAcceleration OneD/TwoD/ThreeD as transition model), m in 1..3, "
-        "N in 1..30 particles, 1..5 steps on the two persistent buffers; wrapped steps KFPrediction/KFCorrection, UKFPrediction/UKFCorrection (additive), "
+        "N in 1..30 particles, 1..5 steps on the two persistent buffers and ONE GPFPrediction / GPFCorrection object pair (one likelihood model, one wrapped "
+        "prediction / correction, one transition model for the whole history); wrapped steps KFPrediction/KFCorrection, UKFPrediction/UKFCorrection (additive), "
         "UKFPrediction/SUKFCorrection; measurement function linear or nonlinear (C05's family: + g sin(Gx), + g (Gx)(G2x)) for the unscented steps; "
+        "TIME-VARYING HISTORIES (70% of the histories of 2+ steps): every operand a model may report differently at a later call is redrawn from step to step in a "
+        "random non-empty subset of the groups {F,Q of the prediction's state model | H | R | G,G2,b,g | Ft,Qt of the transition model | scale factor of the likelihood}, "
+        "a quarter of them (KF / UKF) also change the measurement SIZE between steps; the measurement y_k always changes; the rest keep constant operands; "
         "H random / rank-deficient / selector / zero, SPD P_i, Q, R with chosen condition numbers (P_i up to 10^4.5), one case in 20 with rank-deficient beliefs "
         "and no / rank-deficient process noise (outside the domain spd P: counted); transition model linear-Gaussian (same as or different from the prediction "
         "model) / WNA / Cauchy-like; likelihood model bfl::GaussianLikelihood or a model of the harness that does not consult the measurement model's validity; "
@@ -37,7 +42,8 @@ RULE = ("cases from one seeded stream: n in 1..4 and 6 (2, 4, 6 with the library
         "likelihood scale factors incl. 0; likelihood models returning one value too many / too few (the latter under Eigen assertions only); "
         "lifetime cases (getLikelihood() on a fresh object constructed in 0xFF-filled storage; move construction + destruction of the source; move-assignment chain "
         "a2 = move(a1); a1 = move(a3) compared with never-moved reference objects); "
-        "non-trivial = N >= 2 and at least one valid correction; distinct by (n, m, N class, steps, tkind, wrap, hkind, likkind, validity/skip pattern, cond decade)")
+        "non-trivial = N >= 2 and at least one valid correction; distinct by (n, m, N class, steps, tkind, wrap, hkind, likkind, validity/skip pattern, cond decade, "
+        "set of operand groups that change)")
 TRUSTED_BASE = ["Coq 8.16.1 kernel (coqc); structural, Mahalanobis and C01-composition theorems are axiom-free; the product form of the weight update "
                 "is over Coq's R and uses the four real-number axioms of the standard library (sig_forall_dec, sig_not_dec, functional_extensionality_dep, classic)",
                 "MathComp 1.15 matrix theory",
@@ -48,9 +54,16 @@ TRUSTED_BASE = ["Coq 8.16.1 kernel (coqc); structural, Mahalanobis and C01-compo
                 "ListOps list instance of MatOps (structural operations and Gauss-Jordan inverse/determinant, unproved)",
                 "cpp/h_C08.cpp harness (logs the draws by wrapping the protected gaussian_random_sample_, cross-checked against a mirror mt19937_64; observes the "
                 "library's square-root factor by feeding unit vectors through gaussian_random_sample_ into sampleFromProposal(0, P))",
-                "comparison tolerances: beliefs and positions rtol 1e-9*cond; log-likelihood, log-proposal, log-weights and the square-root factor per particle, "
-                "3e-12 (1e-11 for the factor) times the conditioning of the particle's own chain and the sensitivity to its position; spec formulae on the "
-                "implementation 1e-11 * cond of the matrix inverted, weight identity 4e-15 * sum |terms|",
+                "the model is run ONE STEP AT A TIME from the state the implementation reported before the step (C08_stepwise_trace: the trace of a history is the "
+                "concatenation of such one-step traces; every field of the reported state has itself been compared): both sides compute each step from identical inputs",
+                "comparison tolerances: belief means / covariances rtol 1e-9*cond (cond = worst condition number along the linear recursion of the case); positions, "
+                "square-root factor, log-likelihood, log-proposal (with |z|^2/2 taken out) and log-weights per particle and step: 64 eps times a conditioning unit "
+                "DERIVED from the implementation's own predicted / corrected belief of that particle (first-order error analysis of one step, props/C08.py 'conditioning "
+                "of ONE step': cond(S) |Pp| / lmin(Pc) cancellation of the gain update, Cholesky perturbation, unscented weights and deviation cancellation, asymmetry "
+                "of the covariance, near-coincident eigenvalues under a nonlinear h, gradients of the log-densities times the position error); calibrated: worst "
+                "|impl-model| / (eps unit) over 11 000 thorough histories = 4.0 (allowed 64); particles whose allowed log-domain difference would exceed 0.02 are "
+                "ill-conditioned at that step: not compared, counted; spec formulae on the implementation 1e-11 * cond of the matrix inverted plus the derived "
+                "cancellation term of the differences x - m, y - h(x), x - Ft xp; weight identity 4e-15 * sum |terms|",
                 "the lifetime state machine rs_* is not extracted: tied to the code by scripted scenarios only",
                 "correspondence is sampled: agreement is established on the generated cases only",
                 "IEEE rounding is not modelled (theorems over exact fields)"]
@@ -77,17 +90,17 @@ SIG_MOVED = "C08:moved-object-draws-from-moved-from-object"
 SIG_FRESH = "C08:getLikelihood-valid-before-first-correction"
 SIG_ASSIGN_GEN = "C08:move-assigned-object-draws-from-another-generator"
 SIG_ASSIGN_LIK = "C08:move-assign-keeps-old-likelihood-model"
-LIFETIME_COUNT = {"quick": 4, "thorough": 20}
+LIFETIME_COUNT = {"quick": 12, "thorough": 20}
 
-COUNTS = {"quick": 400, "thorough": 5000}
+COUNTS = {"quick": 2000, "thorough": 5000}
 KS_CASES = {"quick": 0, "thorough": 60}
-BADLIK_CASES = {"quick": 6, "thorough": 40}
+BADLIK_CASES = {"quick": 24, "thorough": 40}
 EPS = 2.2250738585072014e-308
 UNDERFLOW = 1e-305          # Eigen's vectorised exp floors at 5.56e-309 where libm underflows to 0 (and is inexact on denormals)
 SINGULAR = 1e12             # a covariance with a larger condition number is outside the domain spd P
-C_LOG = 3e-12               # log-domain tolerance constant (times the per-particle conditioning unit), see _unit
 _stats = {"other_factor_steps": 0, "underflow_particles": 0, "singular_belief_particles": 0, "nan_weight_with_valid_on_singular": 0,
-          "tol_lw": [], "d2": {}, "ratios": {"lik": [], "q": [], "lw": [], "L": []}, "last_id": None, "pooled_done": False, "badlik_short_asserted": 0}
+          "ill_conditioned_particle_steps": 0, "compared_particle_steps": 0,
+          "tol_lw": [], "d2": {}, "ratios": {"lik": [], "q": [], "lw": [], "L": [], "x": [], "zz": []}, "last_id": None, "pooled_done": False, "badlik_short_asserted": 0}
 
 
 # ------------------------------------------------------------------ generation
@@ -133,7 +146,24 @@ def h_jac(hkind, H, G, G2, g, x):
     return J
 
 
-def make_case(rng, cid, n=None, N=None, steps=None, tkind=None, allvalid=False, kind="gpf", wrap=None, singular=False, plain=False):
+TV_GROUPS = ("FQ", "H", "R", "hfun", "trans", "scale")
+TV_NAMES = ("F", "Q", "H", "G", "G2", "b", "g", "R", "Ft", "Qt", "scale")
+
+
+def stepval(c, name, k):
+    """Operand of step k: mat "<name>_<k>" when the case has it, mat "<name>" otherwise (harness: stepmat, driver: sm)."""
+    nk = "%s_%d" % (name, k)
+    return c.get(nk) if c.has(nk) else c.get(name)
+
+
+def step_ops(c, k):
+    o = {nm: stepval(c, nm, k) for nm in TV_NAMES}
+    o["scale"] = float(o["scale"][0, 0])
+    o["y"] = c.get("ys")[:o["H"].shape[0], k]
+    return o
+
+
+def make_case(rng, cid, n=None, N=None, steps=None, tkind=None, allvalid=False, kind="gpf", wrap=None, singular=False, plain=False, tv=None):
     if n is None:
         n = rng.choice([1, 2, 2, 3, 4, 4, 6] if not plain else [1, 2, 3, 4])
     m = rng.randint(1, 3)
@@ -146,6 +176,24 @@ def make_case(rng, cid, n=None, N=None, steps=None, tkind=None, allvalid=False, 
     wrap = wrap or rng.choice(["kf"] * 6 + ["ukf"] * 3 + ["sukf"] * 2)
     hkind = 0 if (wrap == "kf" or plain) else rng.choice([0, 1, 1, 2])
     likkind = "gaussian" if (plain or rng.random() < 0.8) else "indep"
+    # TIME-VARYING HISTORY: which operand groups change from step to step on the one GPFPrediction / GPFCorrection object
+    # (a group that varies is redrawn at each later step with probability 0.7, else keeps the value of the step before).
+    # Everything a model may report differently at a later call is varied, so that any quantity an object derives from an
+    # earlier call (an inverse, a determinant, a gain, a transition matrix, a scale) is stale at some generated step.
+    if tv is None:
+        tv = (not plain) and steps >= 2 and rng.random() < 0.7
+    vary = set()
+    if tv:
+        vary = {gname for gname in TV_GROUPS if rng.random() < 0.5}
+        if not vary:
+            vary = {rng.choice(TV_GROUPS)}
+        if tkind.startswith("wna"):
+            vary.discard("trans")                    # the library's WhiteNoiseAcceleration has fixed parameters
+        if hkind == 0:
+            vary.discard("hfun")
+        if not vary:
+            vary = {"R"}
+    mvar = bool(tv and wrap in ("kf", "ukf") and rng.random() < 0.25)    # the measurement SIZE changes too (H, R, hfun redrawn with it)
     meta = {"n": n, "m": m, "N": N, "steps": steps, "tkind": tkind, "wrap": wrap, "hkind": hkind, "likkind": likkind, "singular": int(singular)}
     c = caseio.Case(cid, kind, meta)
     if wrap == "ukf":
@@ -153,8 +201,34 @@ def make_case(rng, cid, n=None, N=None, steps=None, tkind=None, allvalid=False, 
     elif wrap == "sukf":
         # the serial UKF takes square roots of the covariance weights: parameters with non-negative weights (C05's domain)
         c.mat("ut", [[1.0, 2.0, rng.choice([0.0, 1.0, 2.0])]])
+
+    def draw_Q():
+        if singular:
+            # rank-deficient beliefs that stay rank-deficient: no (or rank-deficient) process noise
+            return np.zeros((n, n)) if rng.random() < 0.5 else gen.psd(rng, n, rank=max(1, n - 1) if n > 1 else 0, cond=10.0) * 0.05
+        return gen.spd(rng, n, 10 ** rng.uniform(0, 2), lo=10 ** rng.uniform(-1, 0.3))[0]
+
+    def draw_meas(mk):
+        H, hk = gen.measurement_matrix(rng, mk, n)
+        return H, hk
+
+    def draw_hfun(mk):
+        return (gen.matrix(rng, mk, n, 0.5), gen.matrix(rng, mk, n, 0.5),
+                np.zeros((mk, 1)) if wrap == "kf" else gen.matrix(rng, mk, 1, 0.5), gen.matrix(rng, mk, 1, 0.6))
+
+    def draw_R(mk):
+        return gen.spd(rng, mk, 10 ** rng.uniform(0, 3), lo=10 ** rng.uniform(-1, 0.5))[0]
+
+    def draw_scale():
+        sc = 1.0 if rng.random() < 0.5 else 10 ** rng.uniform(-3, 3)
+        if rng.random() < 0.03 and not plain:
+            sc = 0.0                                  # every likelihood exactly 0: ln(0 + eps)
+        return sc
+
+    # ---- step 0
     F, fk = stable_F(rng, n)
-    Q, cq = gen.spd(rng, n, 10 ** rng.uniform(0, 2), lo=10 ** rng.uniform(-1, 0.3))
+    Q = gen.spd(rng, n, 10 ** rng.uniform(0, 2), lo=10 ** rng.uniform(-1, 0.3))[0]
+    same_trans = False
     if tkind.startswith("wna"):
         T, q = rng.uniform(0.4, 1.5), rng.uniform(0.5, 8.0)
         Ft, Qt = wna(T, q, n // 2)
@@ -164,23 +238,56 @@ def make_case(rng, cid, n=None, N=None, steps=None, tkind=None, allvalid=False, 
     elif tkind == "cauchy":
         Ft, Qt = gen.matrix(rng, n, n, 0.7), np.eye(n)
     elif rng.random() < 0.6:
-        Ft, Qt = F.copy(), Q.copy()
+        Ft, Qt = F.copy(), Q.copy(); same_trans = True
     else:
         Ft = stable_F(rng, n)[0]
         Qt = gen.spd(rng, n, 10 ** rng.uniform(0, 2), lo=10 ** rng.uniform(-1, 0.3))[0]
     if singular:
-        # rank-deficient beliefs that stay rank-deficient: no (or rank-deficient) process noise
-        Q = np.zeros((n, n)) if rng.random() < 0.5 else gen.psd(rng, n, rank=max(1, n - 1) if n > 1 else 0, cond=10.0) * 0.05
-    H, hkind_H = gen.measurement_matrix(rng, m, n)
-    G, G2 = gen.matrix(rng, m, n, 0.5), gen.matrix(rng, m, n, 0.5)
-    b = np.zeros((m, 1)) if wrap == "kf" else gen.matrix(rng, m, 1, 0.5)
-    g = gen.matrix(rng, m, 1, 0.6)
-    R, cr = gen.spd(rng, m, 10 ** rng.uniform(0, 3), lo=10 ** rng.uniform(-1, 0.5))
+        Q = draw_Q()
+    H, hkind_H = draw_meas(m)
+    G, G2, b, g = draw_hfun(m)
+    R = draw_R(m)
+    scale = draw_scale()
+    ops = [{"F": F, "Q": Q, "H": H, "G": G, "G2": G2, "b": b, "g": g, "R": R, "Ft": Ft, "Qt": Qt, "scale": scale}]
+    # ---- later steps
+    for k in range(1, steps):
+        o = dict(ops[-1])
+        redraw = lambda grp: grp in vary and rng.random() < 0.7
+        if redraw("FQ"):
+            o["F"] = stable_F(rng, n)[0]
+            o["Q"] = ops[0]["Q"] if singular else draw_Q()
+            if same_trans and "trans" not in vary and not tkind.startswith("wna"):
+                o["Ft"] = o["F"].copy()
+                if not singular:
+                    o["Qt"] = o["Q"].copy()         # (the transition density needs an invertible Qt)
+        mk = o["H"].shape[0]
+        if mvar and rng.random() < 0.6:
+            mk = rng.randint(1, 3)
+        if mk != o["H"].shape[0]:
+            o["H"] = draw_meas(mk)[0]; o["G"], o["G2"], o["b"], o["g"] = draw_hfun(mk); o["R"] = draw_R(mk)
+        else:
+            if redraw("H"):
+                o["H"] = draw_meas(mk)[0]
+            if redraw("hfun"):
+                o["G"], o["G2"], o["b"], o["g"] = draw_hfun(mk)
+            if redraw("R"):
+                o["R"] = draw_R(mk)
+        if redraw("trans"):
+            if tkind == "cauchy":
+                o["Ft"] = gen.matrix(rng, n, n, 0.7)
+            else:
+                o["Ft"] = stable_F(rng, n)[0]
+                o["Qt"] = gen.spd(rng, n, 10 ** rng.uniform(0, 2), lo=10 ** rng.uniform(-1, 0.3))[0]
+        if redraw("scale"):
+            o["scale"] = draw_scale()
+        ops.append(o)
+    mmax = max(o["H"].shape[0] for o in ops)
     # a consistent scenario (so that likelihoods / transition densities are informative, not underflowing):
     # a true trajectory, beliefs and positions scattered around it, measurements of it
     truth = gen.matrix(rng, n, 1, 2.0)
     spread = 10 ** rng.uniform(-1.0, 0.2)
-    covs, cond = [], max(cq, cr, np.linalg.cond(Qt))
+    covs = []
+    cond = max([np.linalg.cond(o["R"]) for o in ops] + [np.linalg.cond(o["Qt"]) for o in ops] + ([] if singular else [np.linalg.cond(o["Q"]) for o in ops]))
     for i in range(N):
         if singular and (i % 2 == 0 or rng.random() < 0.5):
             P = gen.psd(rng, n, rank=rng.randint(0, n - 1)) * spread ** 2 if rng.random() < 0.7 else \
@@ -196,22 +303,21 @@ def make_case(rng, cid, n=None, N=None, steps=None, tkind=None, allvalid=False, 
     w = np.array([rng.random() + 0.05 for _ in range(N)]); lw = np.log(w / w.sum())
     if rng.random() < 0.15:
         lw = lw - rng.uniform(0, 300)          # unnormalised log-weights far from 0
-    ys = np.zeros((m, steps)); xt = truth
-    for k in range(steps):
-        xt = F @ xt
-        ys[:, k:k + 1] = h_eval(hkind, H, G, G2, b, g, xt) + np.linalg.cholesky(R) @ gen.matrix(rng, m, 1, 1.0)
+    ys = np.zeros((mmax, steps)); xt = truth
+    for k, o in enumerate(ops):
+        mk = o["H"].shape[0]
+        xt = o["F"] @ xt
+        ys[:mk, k:k + 1] = h_eval(hkind, o["H"], o["G"], o["G2"], o["b"], o["g"], xt) + np.linalg.cholesky(o["R"]) @ gen.matrix(rng, mk, 1, 1.0)
     outlier = rng.random() < 0.08
     if outlier:
         # one measurement tens of standard deviations off: likelihoods in the underflow range (ln(0 + eps) is exercised)
-        u = gen.matrix(rng, m, 1, 1.0); u /= np.linalg.norm(u)
-        ys[:, rng.randrange(steps)] += (np.linalg.cholesky(R) @ u)[:, 0] * rng.uniform(80, 400)
+        ko = rng.randrange(steps); mk = ops[ko]["H"].shape[0]
+        u = gen.matrix(rng, mk, 1, 1.0); u /= np.linalg.norm(u)
+        ys[:mk, ko] += (np.linalg.cholesky(ops[ko]["R"]) @ u)[:, 0] * rng.uniform(80, 400)
     pfl = 1.0 if (allvalid or plain) else 0.965
     fl = {k: [1 if rng.random() < pfl else 0 for _ in range(steps)] for k in ("mv", "pv", "iv", "cv")}
     lok = [1 if (allvalid or plain or rng.random() < 0.93) else 0 for _ in range(steps)]
     sk = {k: [0 if (allvalid or plain or rng.random() < 0.96) else 1 for _ in range(steps)] for k in ("skpp", "skgp", "skpc", "skgc")}
-    scale = 1.0 if rng.random() < 0.5 else 10 ** rng.uniform(-3, 3)
-    if rng.random() < 0.03 and not plain:
-        scale = 0.0                                  # every likelihood exactly 0: ln(0 + eps)
     # what the wrapped correction and the likelihood model can use
     gcok = [int(fl["mv"][k] and fl["pv"][k] and fl["iv"][k] and (fl["cv"][k] or wrap != "kf")) for k in range(steps)]
     lflags = {("l%d" % (j + 1)): [(fl[f][k] if likkind == "gaussian" else 1) for k in range(steps)] for j, f in enumerate(("mv", "pv", "iv", "cv"))}
@@ -221,23 +327,35 @@ def make_case(rng, cid, n=None, N=None, steps=None, tkind=None, allvalid=False, 
     if singular:
         cond = max(cond, 1e6)        # the beliefs themselves are (nearly) singular: only S = H P H^T + R is inverted
     else:
-        for k in range(steps):
+        for k, o in enumerate(ops):
             if not (sk["skpp"][k] or sk["skgp"][k]):
-                Ps = [F @ P @ F.T + Q for P in Ps]
+                Ps = [o["F"] @ P @ o["F"].T + o["Q"] for P in Ps]
             cond = max(cond, max(np.linalg.cond(P) for P in Ps))
             if gcok[k] and not sk["skgc"][k] and not sk["skpc"][k] and likok[k]:
                 nxt = []
                 for P in Ps:
-                    S = H @ P @ H.T + R
+                    S = o["H"] @ P @ o["H"].T + o["R"]
                     cond = max(cond, np.linalg.cond(S))
-                    K = P @ H.T @ np.linalg.inv(S)
+                    K = P @ o["H"].T @ np.linalg.inv(S)
                     nxt.append(P - K @ S @ K.T)
                 Ps = nxt
                 cond = max(cond, max(np.linalg.cond(P) for P in Ps))
     pattern = "".join("s" if sk["skpc"][k] else ("v" if likok[k] else "i") for k in range(steps))
+    # which groups really differ between two consecutive steps of this history
+    changed = set()
+    for k in range(1, steps):
+        for grp, names in (("FQ", ("F", "Q")), ("H", ("H",)), ("R", ("R",)), ("hfun", ("G", "G2", "b", "g")), ("trans", ("Ft", "Qt")), ("scale", ("scale",))):
+            if any(not np.array_equal(np.asarray(ops[k][nm]), np.asarray(ops[k - 1][nm])) for nm in names):
+                changed.add(grp)
+    if any(ops[k]["H"].shape[0] != ops[0]["H"].shape[0] for k in range(steps)):
+        changed.add("m")
     c.meta.update({"fkind": fk, "hmat": hkind_H, "cond": "%.3g" % min(cond, 1e15), "invalid": pattern,
-                   "same_trans": int(np.array_equal(F, Ft) and np.array_equal(Q, Qt)), "outlier": int(outlier), "scale0": int(scale == 0.0)})
-    c.mat("F", F).mat("Q", Q).mat("H", H).mat("G", G).mat("G2", G2).mat("b", b).mat("g", g).mat("R", R).mat("Ft", Ft).mat("Qt", Qt)
+                   "same_trans": int(same_trans or (np.array_equal(F, Ft) and np.array_equal(Q, Qt))), "outlier": int(outlier),
+                   "scale0": int(any(o["scale"] == 0.0 for o in ops)),
+                   "tv": "+".join(sorted(changed)) if changed else "-"})
+    o0 = ops[0]
+    c.mat("F", o0["F"]).mat("Q", o0["Q"]).mat("H", o0["H"]).mat("G", o0["G"]).mat("G2", o0["G2"]).mat("b", o0["b"]).mat("g", o0["g"]).mat("R", o0["R"])
+    c.mat("Ft", o0["Ft"]).mat("Qt", o0["Qt"])
     c.mat("c_state", states).mat("c_mean", means).mat("c_cov", np.hstack(covs)).mat("c_lw", lw.reshape(-1, 1))
     c.mat("p_state", gen.matrix(rng, n, N, 5.0)).mat("p_mean", gen.matrix(rng, n, N, 5.0))
     c.mat("p_cov", gen.matrix(rng, n, n * N, 5.0)).mat("p_lw", gen.matrix(rng, N, 1, 5.0))
@@ -249,7 +367,13 @@ def make_case(rng, cid, n=None, N=None, steps=None, tkind=None, allvalid=False, 
         c.word(k, lflags[k])
     for k in ("skpp", "skgp", "skpc", "skgc"):
         c.word(k, sk[k])
-    c.int("seed", rng.getrandbits(32)).mat("scale", [[scale]])
+    c.int("seed", rng.getrandbits(32)).mat("scale", [[o0["scale"]]])
+    # per-step operands that differ from those of step 0
+    for k in range(1, steps):
+        for nm in TV_NAMES:
+            v0, vk = np.atleast_2d(np.asarray(o0[nm], dtype=float)), np.atleast_2d(np.asarray(ops[k][nm], dtype=float))
+            if v0.shape != vk.shape or not np.array_equal(v0, vk):
+                c.mat("%s_%d" % (nm, k), vk)
     return c
 
 
@@ -279,7 +403,7 @@ def nontrivial(c):
     n, m, N, steps = (int(c.meta[k]) for k in ("n", "m", "N", "steps"))
     if N >= 2 and "v" in c.meta["invalid"]:
         ncls = "2-3" if N <= 3 else ("4-12" if N <= 12 else "13-30")
-        return (n, m, ncls, steps, c.meta["tkind"], c.meta["wrap"], c.meta["hkind"], c.meta["likkind"], c.meta["invalid"], gen.decade(float(c.meta["cond"])))
+        return (n, m, ncls, steps, c.meta["tkind"], c.meta["wrap"], c.meta["hkind"], c.meta["likkind"], c.meta["invalid"], gen.decade(float(c.meta["cond"])), c.meta.get("tv", "-"))
     return None
 
 
@@ -316,11 +440,192 @@ def _log(v):
     return math.log(v) if v > 0 else -math.inf
 
 
-def _unit(cR, cQ, cP, l, t, q):
-    """Per-particle conditioning unit of the log-domain quantities of one correction: the log-densities are
-    -(n ln 2pi + ln det + quadratic form)/2, computed through an inverse, so their absolute error is proportional to the
-    condition number of the matrix inverted and to their own magnitude."""
-    return (cR + cQ + cP) * (1.0 + abs(_log(max(l, UNDERFLOW))) + abs(_log(max(t, UNDERFLOW))) + abs(_log(max(q, UNDERFLOW))))
+# ---- conditioning of ONE step, per particle ---------------------------------------------------------------------------
+# The driver runs the model step by step from the state the implementation reported before the step (the model is a
+# function of that state and of the step's inputs; histories are compositions of steps, C08_multi_step), so both sides
+# compute each step from bit-identical inputs and what has to be bounded is the rounding of ONE step.  First-order
+# forward error analysis, all quantities in units of the machine epsilon (EPSM), norms are Frobenius norms (bounds of the 2-norms):
+#   predicted belief      F P F^T + Q, F m (KFPrediction) / the unscented transform of the same (UKFPrediction):  uPp, ump
+#       (_pred_units; for the unscented transform: sum of |weights|, cancellation in the deviations, asymmetry of P);
+#   corrected covariance  Pc = Pp - K S K^T  (KF / UKF)  or  X C^-1 X^T  (SUKF):   |dPc| <= uP = W k_step |Pp| + |A|^2 uPp
+#       (k_step = cond(S) resp. cond(C) cond(R): the inverse is accurate to its condition number, and |K S K^T| <= |Pp|:
+#        when the measurement is informative |Pc| << |Pp| and the ABSOLUTE error stays that of the large terms cancelled;
+#        A = I - K H = Pc Pp^-1 carries the rounding of the predicted belief through the correction;
+#        W = 1 for the Kalman step; for the unscented steps W = (sum |wm| + sum |wc|) (1 + |m|/|X_j - m| + |Y_j|/|Y_j - yhat|),
+#        plus, for a nonlinear h, the turn eps |Pp| / gap of the square-root factor's columns times the variation of the
+#        Jacobian over the sigma points);
+#   corrected mean        mc = mp + K nu:   |dmc| <= um = W k_step |mc - mp| + W |K| (|y| + |yhat|) + |mc| + |A| ump + |A| uPp |Pp^-1 (mc - mp)|;
+#   square-root factor    L L^T = Pc:       |dL| <= uL = uP / sqrt(lmin(Pc)) + cond(Pc) sqrt(lmax(Pc))   (Cholesky perturbation);
+#   drawn position        x = mc + L z:     |dx| <= ux = um + uL |z| + |x|;
+#   ln q + |z|^2/2 = -(n ln 2pi + ln det Pc)/2 + (d^T Pc^-1 d - |z|^2)/2, d = x - mc:
+#                         u_q = (n + |z|^2) (uP / lmin(Pc) + cond(Pc)) + 2 |z| (|x| + |mc|) / sqrt(lmin(Pc)) + |ln q|;
+#   ln l = ln s - (m ln 2pi + ln det R + nu^T R^-1 nu)/2, nu = y - h(x):
+#                         u_l = |J^T R^-1 nu| ux + cond(R) (m + nu^T R^-1 nu) + 2 |R^-1 nu| (|y| + |h(x)| + |H||x|) + |ln l|;
+#   ln t likewise with (Qt, x - Ft xp); Cauchy-like: ln t = -ln(1 + |d|^2);
+#   lw' = lw + ln l + ln t - ln q:  u_lw = u_l + u_t + u_q + |lw| + |lw'|.
+# A quantity is accepted when |impl - model| <= C_UNIT * EPSM * unit.  C_UNIT is calibrated (see CALIBRATION below).  When the
+# allowed difference of a log-domain quantity would exceed LOG_CAP the particle is ILL-CONDITIONED at this step (its corrected
+# covariance is not determined to within its smallest eigenvalue by double arithmetic): not compared, counted
+# (ill_conditioned_particle_steps); the property oracle still judges it on the implementation's own values.
+EPSM = 1.1102230246251565e-16
+C_UNIT = 64.0
+LOG_CAP = 0.02
+# CALIBRATION (unchanged tree; r = |impl-model| / (EPSM * unit); thorough generator, seed 1 (5140 histories) and the widened
+# samples of seeds 3 and 5 (3000 each): 190 000 particle-steps):  worst r: L 4.0, position 3.1, ln l 1.8, ln q 0.93, lw 0.78,
+# |z'|^2 0.24; p99.9 <= 0.98; median <= 0.001.  C_UNIT = 64 leaves a factor 16 over the worst ratio seen.  Every run records the
+# distribution ("tolerance_units") and the four worst particle-steps per quantity ("worst_ratio_cases") in its evidence.
+# (Before: one constant 27 000 eps times max(cond) per particle chain - p99 3.5, worst 49 000 -: a heavy tail because the
+#  amplification |Pp| / lmin(Pc) of an informative measurement was missing; forced-widened seed 1 case s157 exceeded it.)
+
+
+def _ut_weights(ut, n):
+    alpha, beta, kappa = (float(x) for x in ut.reshape(-1)[:3])
+    lam = alpha * alpha * (n + kappa) - n
+    cc = n + lam
+    wm = np.full(2 * n + 1, 1.0 / (2 * cc)); wc = wm.copy()
+    wm[0] = lam / cc; wc[0] = lam / cc + 1 - alpha * alpha + beta
+    return cc, wm, wc
+
+
+def _ut_joint(hfun, mp, Pp, R, ut):
+    """Unscented joint statistics of (x, h(x)) (numpy; only used to measure the conditioning of the wrapped unscented step)."""
+    n = len(mp)
+    cc, wm, wc = _ut_weights(ut, n)
+    ev, V = np.linalg.eigh((Pp + Pp.T) / 2)
+    A = V * np.sqrt(np.maximum(ev, 0.0))
+    X = np.hstack([mp.reshape(-1, 1), mp.reshape(-1, 1) + math.sqrt(max(cc, 0.0)) * A, mp.reshape(-1, 1) - math.sqrt(max(cc, 0.0)) * A])
+    Y = hfun(X)
+    yhat = Y @ wm
+    dY = Y - yhat.reshape(-1, 1); dX = X - mp.reshape(-1, 1)
+    S = (dY * wc) @ dY.T + R
+    Pxy = (dX * wc) @ dY.T
+    return S, Pxy, yhat, dY, wc, wm, X, cc
+
+
+def _note(name, ratio, c, k, i, **kw):
+    """Keeps the few worst ratios per compared quantity (diagnostics, reported in the evidence histogram)."""
+    R_ = _stats["ratios"]
+    R_[name].append(ratio)
+    w = _stats.setdefault("worst", {}).setdefault(name, [])
+    if len(w) < 4 or ratio > w[-1][0]:
+        w.append((ratio, "%s step %d particle %d wrap=%s hkind=%s n=%s tv=%s %s" % (c.id, k, i, c.meta.get("wrap"), c.meta.get("hkind"), c.meta.get("n"), c.meta.get("tv"),
+                                                                                  " ".join("%s=%.3g" % kv for kv in kw.items()))))
+        w.sort(key=lambda t: -t[0]); del w[4:]
+
+
+def _safe_cond(A):
+    if A.size == 0:
+        return 1.0
+    if not np.all(np.isfinite(A)):
+        return math.inf
+    try:
+        v = float(np.linalg.cond(A))
+    except np.linalg.LinAlgError:
+        return math.inf
+    return v if math.isfinite(v) else math.inf
+
+
+def _nrm(A):
+    """Frobenius norm (an upper bound of the 2-norm, at most sqrt(n) larger); inf for a non-finite argument."""
+    A = np.asarray(A, dtype=float).ravel()
+    if A.size == 0:
+        return 0.0
+    v = math.sqrt(float(A @ A))
+    return v if math.isfinite(v) else math.inf
+
+
+def _pred_units(c, o, wrap, skipped, m0, P0):
+    """(uPp, ump): rounding of the wrapped Gaussian prediction of one particle (F P F^T + Q, F m; through the unscented
+    transform for UKFPrediction, which the model replaces by the Kalman prediction it equals on a linear model: C04)."""
+    if skipped:
+        return 0.0, 0.0              # the previous beliefs are copied: bit-identical on both sides
+    n = len(m0)
+    nF, nP, nQ, nm = _nrm(o["F"]), _nrm(P0), _nrm(o["Q"]), _nrm(m0)
+    if wrap == "kf":
+        return n * nF * nF * nP + nQ, n * nF * nm
+    cc, wm, wc = _ut_weights(c.get("ut"), n)
+    Wm, Wc = float(np.sum(np.abs(wm))), float(np.sum(np.abs(wc)))
+    dev = math.sqrt(max(cc, 0.0) * nP) * nF
+    ump = Wm * (nF * nm + dev)
+    # the gain updates P - K S K^T leave a covariance symmetric only up to rounding; the unscented transform takes the
+    # square root U sqrt(S) of the SVD, which reproduces P only when P is symmetric, while F P F^T + Q uses P as it is:
+    # the two agree up to the asymmetry of P
+    asym = _nrm(P0 - P0.T) / EPSM
+    # deviations sigma'_i - mu are differences of rounded vectors of size |F m| + dev: 2 eps (|F m| + dev) each, entering the
+    # covariance sum_i wc_i (sigma'_i - mu)(sigma'_i - mu)^T with weight |wc_i| 2 |sigma'_i - mu|  (2n terms of (1/2c) dev)
+    cross = 4 * (n / max(cc, 1e-300)) * dev * (nF * nm + dev)
+    return (n + 1) * nF * nF * nP + Wc * dev * dev / max(cc, 1e-300) + nQ + Wc * nF * nF * nP + nF * nF * asym + cross, ump
+
+
+def _belief_units(c, o, wrap, hk, acted, mp, Pp, mc, Pc, uPp, ump):
+    """(uP, um, k_step) of one particle at one step, from the implementation's own predicted / corrected beliefs."""
+    if not acted:
+        return uPp, ump, 1.0         # the wrapped correction copied its input
+    H, R, y = o["H"], o["R"], o["y"]
+    nPp = _nrm(Pp)
+    if not (np.all(np.isfinite(Pp)) and np.all(np.isfinite(mp)) and np.all(np.isfinite(Pc))):
+        return math.inf, math.inf, math.inf
+    rot_P = rot_m = 0.0
+    if wrap == "kf":
+        S = H @ Pp @ H.T + R
+        kst = _safe_cond(S)
+        K = Pp @ H.T @ np.linalg.pinv(S)
+        W = 1.0
+        yhat = H @ mp
+    else:
+        # (the implementation's SVD factor and the model's Jacobi factor of the symmetrised matrix agree up to the asymmetry of Pp)
+        uPp = uPp + _nrm(Pp - Pp.T) / EPSM
+        hfun = lambda X: h_eval(hk, H, o["G"], o["G2"], o["b"], o["g"], X)
+        S, Pxy, yhat, dY, wc, wm, X, cc = _ut_joint(hfun, mp, Pp, R, c.get("ut"))
+        W = float(np.sum(np.abs(wc)) + np.sum(np.abs(wm)))
+        # The unscented statistics are sums over DEVIATIONS X_j - m and Y_j - yhat, differences of rounded vectors: their
+        # relative error is eps |m| / |X_j - m| resp. eps |Y_j| / |Y_j - yhat| (large when the belief is narrow and far from
+        # the origin, or h is large where it is evaluated), and S, Pxy inherit it
+        sdev_ = math.sqrt(max(cc, 0.0) * nPp)
+        dYmax_ = max(float(np.linalg.norm(dY[:, j])) for j in range(dY.shape[1]))
+        Ymax_ = float(np.max(np.linalg.norm(dY + yhat.reshape(-1, 1), axis=0)))
+        rho = (_nrm(mp) / sdev_ if sdev_ > 0 else 0.0) + (Ymax_ / dYmax_ if dYmax_ > 0 else 0.0)
+        W = W * (1.0 + rho)
+        K = Pxy @ np.linalg.pinv(S)
+        if hk != 0 and len(mp) > 1:
+            # The square-root factor of the sigma points is determined up to column order and sign only while the eigenvalues
+            # of Pp are distinct: its columns turn by eps |Pp| / gap under rounding.  A linear h does not see this (the set
+            # statistics are invariant); for a nonlinear h the part of the Jacobian that varies over the sigma points does.
+            ev = np.linalg.eigvalsh((Pp + Pp.T) / 2)
+            gap = float(np.min(np.diff(ev)))
+            rot = nPp / gap if gap > 0 else math.inf
+            Jm = h_jac(hk, H, o["G"], o["G2"], o["g"], mp.reshape(-1, 1))
+            Jvar = max(_nrm(h_jac(hk, H, o["G"], o["G2"], o["g"], X[:, j:j + 1]) - Jm) for j in range(1, X.shape[1]))
+            sdev = math.sqrt(max(cc, 0.0) * nPp)
+            Wm_, Wc_ = float(np.sum(np.abs(wm))), float(np.sum(np.abs(wc)))
+            dYmax = max(float(np.linalg.norm(dY[:, j])) for j in range(dY.shape[1]))
+            d_yhat = Wm_ * Jvar * sdev * rot
+            d_S = 2 * Wc_ * dYmax * Jvar * sdev * rot
+            d_Pxy = Wc_ * sdev * Jvar * sdev * rot
+            nK = _nrm(K)
+            rot_P = 2 * nK * d_Pxy + nK * nK * d_S
+            rot_m = nK * d_yhat + (d_Pxy + nK * d_S) * _nrm(np.linalg.pinv(S) @ (y - yhat))
+        else:
+            rot_P = rot_m = 0.0
+        if wrap == "ukf":
+            kst = _safe_cond(S)
+        else:
+            # SUKF: C = I + Ys^T R^-1 Ys (Ys the weighted deviations) is inverted, after R
+            Ys = dY * np.sqrt(np.maximum(wc, 0.0))
+            Cm = np.eye(Ys.shape[1]) + Ys.T @ np.linalg.solve(R, Ys)
+            kst = _safe_cond(Cm) * _safe_cond(R)
+    # how the rounding of the predicted belief is carried through the correction: dPc = A dPp A^T, A = I - K H = Pc Pp^-1
+    if uPp > 0 or ump > 0:
+        try:
+            Ppi = np.linalg.inv(Pp)
+            nA = _nrm(Pc @ Ppi); g = _nrm(Ppi @ (mc - mp))
+        except np.linalg.LinAlgError:
+            nA, g = math.inf, math.inf
+    else:
+        nA, g = 0.0, 0.0
+    uP = W * (kst + 1.0) * nPp + nA * nA * uPp + rot_P
+    um = W * kst * _nrm(mc - mp) + W * _nrm(K) * (_nrm(y) + _nrm(yhat)) + _nrm(mc) + _nrm(mp) + nA * ump + nA * uPp * g + rot_m
+    return uP, um, kst
 
 
 # ------------------------------------------------------------------ correspondence
@@ -332,120 +637,130 @@ def compare(c, impl, model):
         return []
     cond = float(c.meta["cond"])
     n, N, steps = int(c.meta["n"]), int(c.meta["N"]), int(c.meta["steps"])
+    wrap, hk_, tk = c.meta["wrap"], int(c.meta["hkind"]), c.meta["tkind"]
     badlik = c.get("badlik") if c.has("badlik") else 0
-    skpc = _words(c, "skpc")
-    cR = float(np.linalg.cond(c.get("R")))
-    cQ = float(np.linalg.cond(c.get("Qt"))) if c.meta["tkind"] != "cauchy" else 1.0
+    skpc, skgc, gcok, skpp, skgp = (_words(c, x) for x in ("skpc", "skgc", "gcok", "skpp", "skgp"))
     # The square-root factor is left free by the property: when the implementation's positions are not m + L z for the
-    # model's LDL^T factor, the driver maps them back (z' = L^-1 (x - m)), re-runs the step on z' and reports
-    # | |z'|^2 - |z|^2 | (zz_dev): positions are then compared through the relation the property states.
+    # model's LDL^T factor, the driver maps them back (z' = L^-1 (x - m)), re-runs the step on z' and reports |z'|^2 per
+    # particle (zz<k>): positions are then compared through the relation the property states, |z'|^2 = |z|^2.
     if model.get("other_factor_steps", 0) > 0:
         _stats["other_factor_steps"] += model.get("other_factor_steps")
     fields, d = [], []
-    singular = False                         # a singular belief was met: positions / weights are outside the domain from here on
-    tol_lw = np.zeros(N)                     # accumulated per-particle tolerance of the log-weights
-    lw_dead = np.zeros(N, dtype=bool)        # particles whose log-weight depends on a density in the underflow range
-    chain = np.ones(N)
-    Hm, Rm, Gm, G2m, bm, gm, Ftm, ys_ = (c.get(x) for x in ("H", "R", "G", "G2", "b", "g", "Ft", "ys"))
-    hk_ = int(c.meta["hkind"])
-    Rinv = np.linalg.inv(Rm)
-    Qtinv = np.linalg.inv(c.get("Qt")) if c.meta["tkind"] != "cauchy" else None
+    R_ = _stats["ratios"]
     for k in range(steps):
-        fields += ["p%d_components" % k, "c%d_components" % k, "p%d_mean" % k, "p%d_cov" % k, "c%d_mean" % k, "c%d_cov" % k, "valid%d" % k]
-        if k == 0:
-            fields += ["p0_state", "p0_lw"]
-        cP = _conds(impl.get("c%d_cov" % k), n)
-        if any(x > SINGULAR for x in cP):
-            singular = True
-        else:
-            # conditioning of the particle's own chain so far: predicted covariance, innovation covariance, corrected covariance
-            pc = impl.get("p%d_cov" % k)
-            cPp = _conds(pc, n)
-            for i in range(N):
-                Pp = pc[:, n * i:n * (i + 1)]
-                cS = float(np.linalg.cond(Hm @ Pp @ Hm.T + Rm)) if np.all(np.isfinite(Pp)) else math.inf
-                chain[i] = max(chain[i], cP[i], cPp[i], cS)
-        if singular:
-            continue
-        fields += ["p%d_state" % k, "c%d_state" % k]
+        o = step_ops(c, k)
+        fields += ["p%d_components" % k, "c%d_components" % k, "p%d_mean" % k, "p%d_cov" % k, "c%d_mean" % k, "c%d_cov" % k, "valid%d" % k,
+                   "p%d_state" % k, "p%d_lw" % k]
         valid = impl.get("valid%d" % k) == 1
         # likelihood_ is an observable of its own (getLikelihood()): compared on invalid steps too
         il, ml = impl.get("lik%d" % k), model.get("lik%d" % k)
         if not valid or skpc[k] or badlik:
-            if badlik == 0 and (il.shape != ml.shape or not caseio.close(il, ml, 1e-300, 1e-9 * cond)):
-                d.append("lik%d (invalid or skipped step): impl=%s model=%s" % (k, il.reshape(-1)[:4], ml.reshape(-1)[:4]))
+            if badlik == 0 and (il is None or ml is None or il.shape != ml.shape or not caseio.close(il, ml, 1e-300, 1e-9 * cond)):
+                d.append("lik%d (invalid or skipped step): impl=%s model=%s" % (k, None if il is None else il.reshape(-1)[:4], None if ml is None else ml.reshape(-1)[:4]))
         if not valid or skpc[k]:
-            # log-weights are copied on an invalid / skipped correction
-            pass
+            # the whole predicted set is copied on an invalid / skipped correction: exact
+            fields += ["c%d_state" % k, "c%d_lw" % k]
         else:
+            need = ["t%d" % k, "q%d" % k, "L%d" % k, "z%d" % k, "c%d_state" % k, "c%d_lw" % k, "p%d_state" % k, "p%d_lw" % k, "c%d_cov" % k, "c%d_mean" % k, "p%d_cov" % k, "p%d_mean" % k]
+            if any(impl.get(x) is None for x in need) or any(model.get(x) is None for x in ("q%d" % k, "L%d" % k, "zz%d" % k, "c%d_state" % k, "c%d_lw" % k)) \
+                    or il is None or ml is None or il.shape[0] < N or ml.shape[0] < N:
+                d.append("step %d: missing / short fields of a valid correction" % k); continue
             t, iq, mq = impl.get("t%d" % k), impl.get("q%d" % k), model.get("q%d" % k)
-            xs_i, xp_i = impl.get("c%d_state" % k), impl.get("p%d_state" % k)
-            # the observed square-root factor of the library against the model's (Gallina) factor
+            xs_i, xs_m, xp_i = impl.get("c%d_state" % k), model.get("c%d_state" % k), impl.get("p%d_state" % k)
             iL, mL = impl.get("L%d" % k), model.get("L%d" % k)
+            z, zzm = impl.get("z%d" % k), model.get("zz%d" % k)
+            refact = model.get("refact%d" % k, 0) == 1
+            pm, pc, cm, cc_ = impl.get("p%d_mean" % k), impl.get("p%d_cov" % k), impl.get("c%d_mean" % k), impl.get("c%d_cov" % k)
+            lwp, lwi, lwm = impl.get("p%d_lw" % k), impl.get("c%d_lw" % k), model.get("c%d_lw" % k)
+            acted = bool(gcok[k]) and not skgc[k]
+            # the corrected buffer before this step (what the prediction read): the implementation's, as in the driver
+            prev_m = impl.get("c%d_mean" % (k - 1)) if k > 0 else c.get("c_mean")
+            prev_P = impl.get("c%d_cov" % (k - 1)) if k > 0 else c.get("c_cov")
+            cP = _conds(cc_, n)
+            Rinv = np.linalg.inv(o["R"]); cR = _safe_cond(o["R"])
+            Qtinv = np.linalg.inv(o["Qt"]) if tk != "cauchy" else None
+            cQ = _safe_cond(o["Qt"]) if tk != "cauchy" else 1.0
+            mk = o["H"].shape[0]
             for i in range(N):
+                if cP[i] > SINGULAR or not np.all(np.isfinite(xs_i[:, i])) or not np.all(np.isfinite(xp_i[:, i])):
+                    continue                   # singular belief: outside the domain (counted by the oracle)
+                Pp, Pc, mp, mc = pc[:, n * i:n * (i + 1)], cc_[:, n * i:n * (i + 1)], pm[:, i], cm[:, i]
+                uPp, ump = _pred_units(c, o, wrap, skpp[k] or skgp[k], prev_m[:, i], prev_P[:, n * i:n * (i + 1)])
+                uP, um, kst = _belief_units(c, o, wrap, hk_, acted, mp, Pp, mc, Pc, uPp, ump)
+                ev = np.linalg.eigvalsh((Pc + Pc.T) / 2)
+                lmin, lmax = float(ev.min()), float(ev.max())
+                kP = cP[i]                                   # effective condition number (asymmetry included, see _conds)
+                zi = z[:, i]; nz = float(np.linalg.norm(zi)); zz = float(zi @ zi)
+                xi_ = xs_i[:, i]; nx = float(np.linalg.norm(xi_)); nm_ = float(np.linalg.norm(mc))
+                uL = uP / math.sqrt(lmin) + kP * math.sqrt(lmax)
+                ux = um + uL * nz + nx + nm_
                 li, ti, qi = float(il[i, 0]), float(t[i, 0]), float(iq[i, 0])
-                # sensitivity of the log-likelihood / log-transition density to the rounding of the drawn position itself
-                # (which carries the conditioning of the particle's chain): |grad ln l| |x| and |grad ln t| |x|
-                xi_ = xs_i[:, i]; xn = float(np.linalg.norm(xi_)) + 1e-300
-                nu = ys_[:, k] - h_eval(hk_, Hm, Gm, G2m, bm, gm, xi_.reshape(-1, 1))[:, 0]
-                sens = float(np.linalg.norm(h_jac(hk_, Hm, Gm, G2m, gm, xi_.reshape(-1, 1)).T @ Rinv @ nu)) * xn
-                if c.meta["tkind"] != "cauchy":
-                    sens += float(np.linalg.norm(Qtinv @ (xi_ - Ftm @ xp_i[:, i]))) * xn
-                u = _unit(cR, cQ, chain[i], li, ti, qi) + chain[i] * sens
-                tol = C_LOG * u
-                tol_lw[i] += 3 * tol        # three log-densities enter each update
-                if min(li, ti, qi, float(ml[i, 0]), float(mq[i, 0])) < UNDERFLOW:
-                    if li > 0 or float(ml[i, 0]) > 0 or c.meta["scale0"] != "1":
-                        if not lw_dead[i]:
-                            _stats["underflow_particles"] += 1
-                        lw_dead[i] = True
-                for name, a, bb in (("lik", li, float(ml[i, 0])), ("q", qi, float(mq[i, 0]))):
+                lm_, qm_ = float(ml[i, 0]), float(mq[i, 0])
+                u_q = (n + zz) * (uP / lmin + kP) + 2 * nz * (nx + nm_) / math.sqrt(lmin) + abs(_log(max(qi, UNDERFLOW)))
+                hx = h_eval(hk_, o["H"], o["G"], o["G2"], o["b"], o["g"], xi_.reshape(-1, 1))[:, 0]
+                nu = o["y"] - hx; a_ = Rinv @ nu
+                J = h_jac(hk_, o["H"], o["G"], o["G2"], o["g"], xi_.reshape(-1, 1))
+                u_l = float(np.linalg.norm(J.T @ a_)) * ux + cR * (mk + float(nu @ a_)) \
+                    + 2 * float(np.linalg.norm(a_)) * (float(np.linalg.norm(o["y"])) + float(np.linalg.norm(hx)) + _nrm(J) * nx) + abs(_log(max(li, UNDERFLOW)))
+                dd = xi_ - o["Ft"] @ xp_i[:, i]
+                rnd = nx + _nrm(o["Ft"]) * float(np.linalg.norm(xp_i[:, i]))
+                if tk != "cauchy":
+                    at = Qtinv @ dd
+                    u_t = float(np.linalg.norm(at)) * (ux + 2 * rnd) + cQ * (n + float(dd @ at)) + abs(_log(max(ti, UNDERFLOW)))
+                else:
+                    nd = float(np.linalg.norm(dd))
+                    u_t = 2 * nd / (1 + nd * nd) * (ux + 2 * rnd) + 2.0
+                u_lw = u_l + u_t + u_q + abs(float(lwp[i, 0])) + abs(float(lwi[i, 0]))
+                units = {"q": u_q, "lik": u_l, "lw": u_lw}
+                if not all(math.isfinite(u) for u in (u_q, u_l, u_t, ux, uL)) or C_UNIT * EPSM * max(u_q, u_l, u_t) > LOG_CAP:
+                    _stats["ill_conditioned_particle_steps"] += 1
+                    continue
+                _stats["compared_particle_steps"] += 1
+                under = min(li, ti, qi, lm_, qm_) < UNDERFLOW
+                if under and (li > 0 or lm_ > 0 or o["scale"] != 0.0):
+                    _stats["underflow_particles"] += 1
+                # positions (through the relation |z'|^2 = |z|^2 when the factor differs)
+                if refact:
+                    zzd = abs(float(zzm[i, 0]) - zz)
+                    u_zz = 2 * nz * ux / math.sqrt(lmin) + kP * zz + 1.0
+                    _note("zz", zzd / (u_zz * EPSM), c, k, i, kst=kst, kP=kP)
+                    if not zzd <= C_UNIT * EPSM * u_zz:
+                        d.append("step %d particle %d: position is not m + L z for a factor with L L^T = P: | |L^-1 (x-m)|^2 - |z|^2 | = %.3g (tol %.3g)" % (k, i, zzd, C_UNIT * EPSM * u_zz))
+                else:
+                    dx = float(np.max(np.abs(xi_ - xs_m[:, i])))
+                    _note("x", dx / (ux * EPSM), c, k, i, kst=kst, kP=kP, um=um, uLz=uL * nz, nx=nx, acted=acted)
+                    if not dx <= C_UNIT * EPSM * ux:
+                        d.append("c%d_state[%d]: max|impl-model|=%.3g (tol %.3g)" % (k, i, dx, C_UNIT * EPSM * ux))
+                    A, B = iL[:, n * i:n * (i + 1)], mL[:, n * i:n * (i + 1)]
+                    dl = caseio.maxdiff(A, B)
+                    _note("L", dl / (uL * EPSM), c, k, i, kst=kst, kP=kP, uP=uP, lmin=lmin, lmax=lmax, nPp=_nrm(Pp), acted=acted)
+                    if not dl <= C_UNIT * EPSM * uL:
+                        d.append("L%d[%d]: observed square-root factor differs from the model's, max %.3g (tol %.3g)" % (k, i, dl, C_UNIT * EPSM * uL))
+                # likelihood and proposal density (the latter with the |z|^2 each side used taken out)
+                for name, a, bb, u, sa, sb in (("lik", li, lm_, u_l, 0.0, 0.0), ("q", qi, qm_, u_q, zz / 2, float(zzm[i, 0]) / 2)):
                     if a < UNDERFLOW or bb < UNDERFLOW:
                         if abs(a - bb) > UNDERFLOW:
                             d.append("%s%d[%d]: impl=%.6g model=%.6g (underflow range)" % (name, k, i, a, bb))
                         continue
-                    diff = abs(math.log(a) - math.log(bb))
-                    _stats["ratios"][name].append(diff / (u * 1.1e-16))
-                    if diff / (u * 1.1e-16) > 300 and os.environ.get("C08_DEBUG"):
-                        print("DBG", c.id, c.meta["wrap"], c.meta["hkind"], c.meta["tkind"], c.meta["cond"], name, k, i, "ratio %.3g cP %.3g cR %.3g" % (diff / (u * 1.1e-16), chain[i], cR), file=__import__("sys").stderr)
-                    if not diff <= tol:
-                        d.append("ln %s%d[%d]: |impl-model|=%.3g (tol %.3g)" % (name, k, i, diff, tol))
-                if model.get("other_factor_steps", 0) == 0:
-                    A, B = iL[:, n * i:n * (i + 1)], mL[:, n * i:n * (i + 1)]
-                    dl = caseio.maxdiff(A, B) / max(1e-300, float(np.max(np.abs(A))))
-                    _stats["ratios"]["L"].append(dl / (chain[i] * 1.1e-16))
-                    if dl / (chain[i] * 1.1e-16) > 3000 and os.environ.get("C08_DEBUG"):
-                        print("DBGL", c.id, c.meta["wrap"], c.meta["hkind"], c.meta["cond"], k, i, dl, chain[i], A.tolist(), B.tolist(), file=__import__("sys").stderr)
-                    if not dl <= 1e-11 * chain[i]:
-                        d.append("L%d[%d]: observed square-root factor differs from the model's, relative %.3g (tol %.3g)" % (k, i, dl, 1e-11 * chain[i]))
-        # log-weights, per particle
-        for pre in ("p%d" % (k + 1), "c%d" % k):
-            if pre.startswith("p") and k + 1 >= steps:
-                continue
-            a, bb = impl.get(pre + "_lw"), model.get(pre + "_lw")
-            if a is None or bb is None or a.shape != bb.shape:
-                d.append("%s_lw: missing or shape" % pre); continue
-            for i in range(N):
-                if lw_dead[i]:
-                    continue
-                x, y = float(a[i, 0]), float(bb[i, 0])
-                tol = tol_lw[i] + 4e-16 * (k + 2) * max(1.0, abs(x))
-                if x == y or (math.isnan(x) and math.isnan(y)):
-                    continue
-                if pre.startswith("c"):
-                    _stats["tol_lw"].append(tol)
-                if pre.startswith("c") and tol_lw[i] > 0:
-                    _stats["ratios"]["lw"].append(abs(x - y) / (tol_lw[i] / (3 * C_LOG) * 1.1e-16))
-                if not abs(x - y) <= tol:
-                    d.append("%s_lw[%d]: |impl-model|=%.3g (tol %.3g)" % (pre, i, abs(x - y), tol))
+                    diff = abs((math.log(a) + sa) - (math.log(bb) + sb))
+                    _note(name, diff / (u * EPSM), c, k, i, kst=kst, kP=kP, u=u)
+                    if not diff <= C_UNIT * EPSM * u:
+                        d.append("ln %s%d[%d]: |impl-model|=%.3g (tol %.3g = %g eps x unit %.3g; k_step %.3g, cond Pc %.3g)" % (name, k, i, diff, C_UNIT * EPSM * u, C_UNIT, u, kst, kP))
+                # log-weight (a density in the underflow range: Eigen's exp floors where libm underflows, identity checked by the oracle only)
+                if not under:
+                    x_, y_ = float(lwi[i, 0]), float(lwm[i, 0])
+                    if not (x_ == y_ or (math.isnan(x_) and math.isnan(y_))):
+                        dz = abs(float(zzm[i, 0]) - zz) / 2 if refact else 0.0     # accepted above through the relation
+                        diff = max(0.0, abs(x_ - y_) - dz)
+                        _note("lw", diff / (u_lw * EPSM), c, k, i, kst=kst, kP=kP, u=u_lw)
+                        _stats["tol_lw"].append(C_UNIT * EPSM * u_lw)
+                        if not diff <= C_UNIT * EPSM * u_lw:
+                            d.append("c%d_lw[%d]: |impl-model|=%.3g (tol %.3g)" % (k, i, diff, C_UNIT * EPSM * u_lw))
         # the draws consumed: n per particle on a valid correction (correspondence only); on an invalid one the number is
         # left free (testing what can be tested before sampling is a harmless rewrite), on a skipped one it is 0
         if (valid and not skpc[k] and impl.get("nz%d" % k) != n * N) or (skpc[k] and impl.get("nz%d" % k) != 0):
             d.append("nz%d: %s standard-normal draws consumed by the implementation" % (k, impl.get("nz%d" % k)))
     d += caseio.compare_fields(impl, model, fields, atol=1e-300, rtol=1e-9, scale=cond)
-    zz = model.get("zz_dev", 0.0)
-    if not singular and (zz > 1e-9 * cond or math.isnan(zz)):
-        d.append("positions are not m + L z for a factor with L L^T = P: relative | |L^-1 (x-m)|^2 - |z|^2 | = %.3g" % zz)
     return d[:12]
 
 
@@ -557,10 +872,6 @@ def _oracle(c, impl, model):
     n, m, N, steps = (int(c.meta[k]) for k in ("n", "m", "N", "steps"))
     tk, hkind = c.meta["tkind"], int(c.meta["hkind"])
     badlik = c.get("badlik") if c.has("badlik") else 0
-    H, G, G2, b, g, R, Ft, Qt = (c.get(k) for k in ("H", "G", "G2", "b", "g", "R", "Ft", "Qt"))
-    cR = float(np.linalg.cond(R)); cQ = float(np.linalg.cond(Qt)) if tk != "cauchy" else 1.0
-    scale = float(c.get("scale")[0, 0])
-    ys = c.get("ys")
     skpp, skgp, skpc, likok = (_words(c, k) for k in ("skpp", "skgp", "skpc", "likok"))
     prev = {f: c.get("c_" + f) for f in ("state", "mean", "cov", "lw")}
     prev_valid, prev_lik = False, np.zeros((0, 1))
@@ -569,6 +880,10 @@ def _oracle(c, impl, model):
     if impl.get("rng_mirror_ok") != 1:
         v.append(("C08:draws-not-the-seeded-stream", "the draws consumed differ from mt19937_64(seed) + normal_distribution(0,1) in order"))
     for k in range(steps):
+        # the operands the models served at THIS step (time-varying histories)
+        o = step_ops(c, k)
+        H, G, G2, b, g, R, Ft, Qt, scale, yk = (o[x] for x in ("H", "G", "G2", "b", "g", "R", "Ft", "Qt", "scale", "y"))
+        cR = float(np.linalg.cond(R)); cQ = float(np.linalg.cond(Qt)) if tk != "cauchy" else 1.0
         P_ = {f: impl.get("p%d_%s" % (k, f)) for f in ("state", "mean", "cov", "lw")}
         C_ = {f: impl.get("c%d_%s" % (k, f)) for f in ("state", "mean", "cov", "lw")}
         tag = "step %d" % k
@@ -654,23 +969,34 @@ def _oracle(c, impl, model):
                 zz = float(z[:, i] @ z[:, i])
                 Ps = (Pc + Pc.T) / 2
                 d2 = float((x - mu) @ np.linalg.solve(Ps, x - mu))
-                if not (abs(d2 - zz) <= 1e-11 * cP[i] * max(1.0, zz)):
+                # x - m is formed from the stored x = fl(m + L z): when |m| >> |L z| the difference carries the rounding of x,
+                # eps (|x| + |m|), which the quadratic form sees divided by sqrt(lmin(P)) (derived, cf. u_q in compare)
+                lmin_ = max(float(np.linalg.eigvalsh(Ps).min()), 1e-300)
+                canc = C_UNIT * EPSM * 2 * math.sqrt(zz) * (float(np.linalg.norm(x)) + float(np.linalg.norm(mu))) / math.sqrt(lmin_)
+                if not (abs(d2 - zz) <= 1e-11 * cP[i] * max(1.0, zz) + canc):
                     v.append(("C08:mahalanobis", "%s particle %d: (x-m)^T P^-1 (x-m) = %.12g but |z|^2 = %.12g" % (tag, i, d2, zz)))
                 d2_case.append(d2)
                 # likelihood on the drawn position, transition on (previous position, drawn position), proposal at the drawn position
                 hx = h_eval(hkind, H, G, G2, b, g, x.reshape(-1, 1))[:, 0]
-                ls = (math.log(scale) if scale > 0 else -math.inf) + _logdens(ys[:, k], hx, R)
-                if not _close_logdens(li, ls, 1e-11 * cR * (1 + (abs(ls) if math.isfinite(ls) else 0))):
-                    v.append(("C08:likelihood-not-on-drawn-states", "%s particle %d: likelihood %.6g, scale*N(y; h(x_i), R) at the drawn position = %.6g" % (tag, i, li, _exp(ls))))
+                ls = (math.log(scale) if scale > 0 else -math.inf) + _logdens(yk, hx, R)
+                # (y - h(x) and x - Ft xp are differences of rounded quantities: eps times their magnitudes, times the gradient)
+                a_l = np.linalg.solve(R, yk - hx)
+                canc_l = C_UNIT * EPSM * float(np.linalg.norm(a_l)) * (float(np.linalg.norm(yk)) + float(np.linalg.norm(hx))
+                                                                        + _nrm(h_jac(hkind, H, G, G2, g, x.reshape(-1, 1))) * float(np.linalg.norm(x)))
+                if not _close_logdens(li, ls, 1e-11 * cR * (1 + (abs(ls) if math.isfinite(ls) else 0)) + canc_l):
+                    v.append(("C08:likelihood-not-on-drawn-states", "%s particle %d: likelihood %.6g, scale_k * N(y_k; h_k(x_i), R_k) at the drawn position with the operands of this step = %.6g (ln ratio %.3g)"
+                              % (tag, i, li, _exp(ls), (math.log(li) - ls) if li > 0 and math.isfinite(ls) else math.nan)))
+                dd = x - Ft @ xp
+                rnd_t = float(np.linalg.norm(x)) + _nrm(Ft) * float(np.linalg.norm(xp))
                 if tk == "cauchy":
-                    dd = x - Ft @ xp
-                    ts = -math.log1p(float(dd @ dd)); ttol = 1e-13 * (1 + abs(ts))
+                    nd_ = float(np.linalg.norm(dd))
+                    ts = -math.log1p(float(dd @ dd)); ttol = 1e-13 * (1 + abs(ts)) + C_UNIT * EPSM * 2 * nd_ / (1 + nd_ * nd_) * rnd_t
                 else:
-                    ts = _logdens(x, Ft @ xp, Qt); ttol = 1e-11 * cQ * (1 + abs(ts))
+                    ts = _logdens(x, Ft @ xp, Qt); ttol = 1e-11 * cQ * (1 + abs(ts)) + C_UNIT * EPSM * float(np.linalg.norm(np.linalg.solve(Qt, dd))) * rnd_t
                 if not _close_logdens(ti, ts, ttol):
                     v.append(("C08:transition-not-p(cur|prev):tkind=%s" % tk, "%s particle %d: transition density %.6g, expected %.6g at (previous position, drawn position)" % (tag, i, ti, _exp(ts))))
                 qs = _logdens(x, mu, Ps)
-                if not _close_logdens(qi, qs, 1e-11 * cP[i] * (1 + abs(qs))):
+                if not _close_logdens(qi, qs, 1e-11 * cP[i] * (1 + abs(qs)) + canc / 2):
                     v.append(("C08:proposal-density", "%s particle %d: proposal density %.6g, N(x_i; m_i, P_i) = %.6g" % (tag, i, qi, _exp(qs))))
         prev = C_
         prev_valid, prev_lik = valid, lik
@@ -706,7 +1032,7 @@ def _pct(a, q):
 
 
 def histogram(cases):
-    h = {k: {} for k in ("n", "N", "steps", "tkind", "wrap", "hkind", "likkind", "invalid_pattern_classes", "cond_decade")}
+    h = {k: {} for k in ("n", "N", "steps", "tkind", "wrap", "hkind", "likkind", "invalid_pattern_classes", "cond_decade", "time_varying_groups")}
     h["lifetime_cases"] = sum(1 for c in cases if c.kind in ("gpf_fresh", "gpf_moved"))
     h["wrong_size_likelihood_cases"] = sum(1 for c in cases if c.kind == "gpf_badlik")
     h["wrong_size_likelihood_short_asserted"] = _stats["badlik_short_asserted"]
@@ -719,6 +1045,9 @@ def histogram(cases):
         inv = c.meta["invalid"]; icls = "all-valid" if set(inv) == {"v"} else ("some-invalid-or-skipped" if "v" in inv else "none-valid")
         h["invalid_pattern_classes"][icls] = h["invalid_pattern_classes"].get(icls, 0) + 1
         d = str(gen.decade(float(c.meta["cond"]))); h["cond_decade"][d] = h["cond_decade"].get(d, 0) + 1
+        for grp in str(c.meta.get("tv", "-")).split("+"):
+            grp = "constant" if grp == "-" else grp
+            h["time_varying_groups"][grp] = h["time_varying_groups"].get(grp, 0) + 1
     h["skip_flag_cases"] = sum(1 for c in cases if any(x != "0" for k in ("skpp", "skgp", "skpc", "skgc") for x in c.get(k)))
     h["singular_belief_cases"] = sum(1 for c in cases if c.meta.get("singular") in (1, "1"))
     ks = {}
@@ -733,10 +1062,13 @@ def histogram(cases):
     h["particles_with_a_density_in_the_underflow_range_lw_not_compared"] = _stats["underflow_particles"]
     h["singular_belief_particles_outside_domain"] = _stats["singular_belief_particles"]
     h["of_which_nan_or_inf_log_weight_with_valid_1"] = _stats["nan_weight_with_valid_on_singular"]
-    # how tight the log-domain comparisons are: |impl - model| in units of eps * conditioning unit (tolerance = C_LOG / eps units)
-    h["tolerance_units"] = {k: {"n": len(a), "median": round(_pct(a, 50), 3), "p99": round(_pct(a, 99), 3), "max": round(_pct(a, 100), 3),
-                                "allowed": round((1e-11 if k == "L" else C_LOG) / 1.1e-16, 1)}
+    # how tight the per-step comparisons are: |impl - model| in units of eps * (derived conditioning unit of the particle at the step)
+    h["tolerance_units"] = {k: {"n": len(a), "median": round(_pct(a, 50), 3), "p99": round(_pct(a, 99), 3), "p99.9": round(_pct(a, 99.9), 3),
+                                "max": round(_pct(a, 100), 3), "allowed": C_UNIT}
                             for k, a in _stats["ratios"].items()}
+    h["worst_ratio_cases"] = {k: ["%.3g: %s" % t for t in v] for k, v in _stats.get("worst", {}).items()}
+    h["particle_steps_compared"] = _stats["compared_particle_steps"]
+    h["ill_conditioned_particle_steps_not_compared"] = _stats["ill_conditioned_particle_steps"]
     a = _stats["tol_lw"]
     h["log_weight_absolute_tolerance"] = {"n": len(a), "median": float("%.3g" % _pct(a, 50)), "p90": float("%.3g" % _pct(a, 90)), "max": float("%.3g" % _pct(a, 100))}
     return h
@@ -750,13 +1082,15 @@ LEVEL_TEXT = ("Proof: for the model of GPFPrediction::predictStep and GPFCorrect
               "the two models) with q_i the Gaussian density at the drawn position (product form over R with the positivity guard proved), and returns the predicted set when "
               "the likelihood is invalid; over MathComp matrices the Mahalanobis identity (x-m)^T P^-1 (x-m) = z^T z for SPD P under the contract L L^T = P, and with C01's "
               "Kalman correction as wrapped step the beliefs are the information-form posteriors. The chi-square law of the distances is reduced to this identity plus the "
-              "assumption that the draws are standard normal. The model is tied to the code by running the extracted model and the library on the same generated histories. "
+              "assumption that the draws are standard normal. Histories with operands that change from step to step: at step k every formula is in terms of the operands "
+              "of step k only (C08_multi_step_time_varying, C08_no_hidden_memory). The model is tied to the code by running the extracted model (entry point with a "
+              "configuration per step) and the library on the same generated histories, step by step from the implementation's reported state. "
               "SEPARATE GROUP (9 of the obligations, LIFETIME_THEOREMS): a small state machine of construction / move / draw / destruction of GPFCorrection objects (random "
               "source, validity flag, likelihood model) with invariants for all operation sequences and regression witnesses for the code before d193577 / 57c1b76; this "
               "machine is NOT extracted and is tied to the code by scripted harness scenarios only.")
 LEVEL_NOTE = ("Trusted: Coq kernel, MathComp, stdlib Reals axioms (product form only), extraction + float driver (Jacobi factor for the unscented steps), list instance of the "
-              "matrix interface, C05_Model as imported wrapped step, harness and tolerances; rounding is not modelled; the tie to the code is sampled (about 400 quick / 5000 "
-              "thorough histories). The distribution clause is an identity plus an assumption on std::normal_distribution (KS tests as supporting evidence only). Singular "
+              "matrix interface, C05_Model as imported wrapped step, harness and tolerances; rounding is not modelled; the tie to the code is sampled (about 2000 quick / 5000 "
+              "thorough histories, 55% of them with operands that change between steps on one object). The distribution clause is an identity plus an assumption on std::normal_distribution (KS tests as supporting evidence only). Singular "
               "beliefs are outside the domain (premise spd P): generated and counted. Where a density is below 1e-305 (Eigen's vectorised exp floors at 5.56e-309 instead of 0) "
               "log-weights are checked by the identity on the implementation's own values only. UKFPrediction is compared with the Kalman prediction (the state model of the "
               "check is LTI: C04); the corrections use C05's unscented models with linear and nonlinear measurement functions. The lifetime group is scenario-tested, not "
